@@ -85,6 +85,10 @@ def py_cases():
     out.append(K.F("q1", "int", [K.P("int_v", "a"), K.P("int_pout", "rem"), K.P("int_v", "b", default="2")]))
     out.append(K.F("q2", "double", [K.P("double_v", "x"), K.P("dbl_pout", "y"), K.P("int_v", "n", default="5"),
                                     K.P("bool_v", "flag", default="true")]))
+    # an overload set in which one candidate has a default on every argument (callable with none)
+    out.append(K.F("q6", "int", [K.P("int_v", "a", default="3"), K.P("int_v", "b", default="4")], overload=0))
+    out.append(K.F("q6", "int", [K.P("str_cref", "s")], overload=1))
+    out.append(K.F("q6", "int", [K.P("double_v", "x"), K.P("bool_v", "f"), K.P("int_v", "k", default="1")], overload=2))
     return out
 
 
